@@ -78,6 +78,7 @@ pub use saphyr_parser::{ScalarStyle, Tag};
 #[allow(missing_docs)]
 pub mod verif {
     pub use crate::emitter::verif_hooks::*;
+    pub use crate::loader::LoadError;
     #[cfg(feature = "encoding")]
     pub use crate::encoding::verif_hooks::{detect_utf16_endianness, take_trace, ITERATION_LIMIT};
 }
